@@ -58,11 +58,25 @@ def gen_case(r, tier):
         l1, l2 = r.choice([({'app': 'a'}, {'app': 'b'}), ({'app': 'a'}, {'app': 'a', 'tier': 'c'}), ({'app': 'a'}, {}),
                            ({'app': 'a'}, {'app': 'a', 'canary': ''}), ({'app': 'a', 'canary': ''}, {'app': 'a'}), ({'app': ''}, {}),
                            ({'app': 'a', 'tier': ''}, {'app': 'a', 'env': ''})])
-        pods = [{'kind': 'Pod', 'ns': ns, 'name': 'px1', 'labels': l1, 'ports': [], 'replicas': None, 'owner': own},
-                {'kind': 'Pod', 'ns': ns, 'name': 'px2', 'labels': l2, 'ports': [], 'replicas': None, 'owner': own}]
+        xo = r.random() < 0.5      # the controller reference listed after a non-controller owner
+        pods = [{'kind': 'Pod', 'ns': ns, 'name': 'px1', 'labels': l1, 'ports': [], 'replicas': None, 'owner': own, 'extra_owner': xo},
+                {'kind': 'Pod', 'ns': ns, 'name': 'px2', 'labels': l2, 'ports': [], 'replicas': None, 'owner': own, 'extra_owner': xo}]
         if r.random() < 0.4:   # a third, consistent pod so that the inconsistent pair is not the only pair
             pods.insert(r.randrange(3), {'kind': 'Pod', 'ns': ns, 'name': 'px0', 'labels': dict(l1), 'ports': [], 'replicas': None, 'owner': own})
         W['workloads'].extend(pods)
+    if kind in ('none', 'np_name', 'owner_labels', 'banp_name'):
+        # legal corner values that must NOT be taken for a conflict: the two ends of the priority range, an ANP that shares its name
+        # with the BANP
+        ps = [a['priority'] for a in W['anps']]
+        if r.random() < 0.4 and 1000 not in ps:
+            W['anps'][0]['priority'] = 1000
+            ps = [a['priority'] for a in W['anps']]
+        if r.random() < 0.4 and 0 not in ps and len(W['anps']) > 1:
+            W['anps'][-1]['priority'] = 0
+        if kind == 'none' and r.random() < 0.4 and not any(a['name'] == 'default' for a in W['anps']):
+            W['anps'][r.randrange(len(W['anps']))]['name'] = 'default'
+            if W.get('banp') is None:
+                W['banp'] = {'name': 'default', 'subject': {'namespaces': {}}, 'ingress': [{'name': 'b', 'action': 'Deny', 'from': [{'namespaces': {}}]}]}
     order = r.choice(['sorted', 'reversed', 'random'])
     return W, kind, order, n
 
